@@ -169,7 +169,7 @@ Inductive sem_res :=
 | SemNone (s : mstate)
 | SemJump (pc : Z) (s : mstate)
 | SemExit (o : outcome) (s : mstate)
-| SemFail (c : Z).
+| SemFail (c : Z) (s : mstate).   (* the state at the failure: the requests already made stay visible *)
 
 Inductive step_res := SNext (s : mstate) | SHalt (o : outcome) (s : mstate).
 
@@ -211,13 +211,13 @@ Section Machine.
   Definition codelen : Z := zlen code.
 
   Definition bin (f : Z -> Z -> Z) (args : list Z) (s : mstate) : sem_res :=
-    match args with [a; b] => SemPush (f a b) s | _ => SemFail EC_MODEL end.
+    match args with [a; b] => SemPush (f a b) s | _ => SemFail EC_MODEL s end.
   Definition un (f : Z -> Z) (args : list Z) (s : mstate) : sem_res :=
-    match args with [a] => SemPush (f a) s | _ => SemFail EC_MODEL end.
+    match args with [a] => SemPush (f a) s | _ => SemFail EC_MODEL s end.
   Definition tern (f : Z -> Z -> Z -> Z) (args : list Z) (s : mstate) : sem_res :=
-    match args with [a; b; c] => SemPush (f a b c) s | _ => SemFail EC_MODEL end.
+    match args with [a; b; c] => SemPush (f a b c) s | _ => SemFail EC_MODEL s end.
   Definition nullary (v : Z) (args : list Z) (s : mstate) : sem_res :=
-    match args with [] => SemPush (wrapW v) s | _ => SemFail EC_MODEL end.
+    match args with [] => SemPush (wrapW v) s | _ => SemFail EC_MODEL s end.
 
   Definition ILLEGAL_MEM := EVM_CONTRACT_ILLEGAL_MEMORY_ACCESS.
 
@@ -260,9 +260,9 @@ Section Machine.
        oracle entry), an account or a missing actor "succeeds" with no data, any other native actor
        "fails" with no data -- no message is sent in the last two cases. *)
   Definition do_call (kind : Z) (dst value ioff isz ooff osz : Z) (s : mstate) : sem_res :=
-    if e_readonly E && (0 <? value) then SemFail USR_READ_ONLY else
+    if e_readonly E && (0 <? value) then SemFail USR_READ_ONLY s else
     match mem_region (m_msize s) ioff isz with
-    | None => SemFail ILLEGAL_MEM
+    | None => SemFail ILLEGAL_MEM s
     | Some (reg, sz) =>
         let input := region_bytes (m_mem s) reg in
         let dst160 := dst mod ADDR_MASK in
@@ -277,16 +277,16 @@ Section Machine.
         let lg := if sends && negb pre then EvCall kind dst160 value input :: m_log s else m_log s in
         let s1 := set_ext (xr_ret r) bal rest lg (set_mem (m_mem s) sz s) in
         match copy_to_memory s1 ooff osz 0 (xr_ret r) false with
-        | None => SemFail ILLEGAL_MEM
+        | None => SemFail ILLEGAL_MEM s1
         | Some s2 => SemPush (if ok then 1 else 0) s2
         end
     end.
 
   (* create / create2 / create_common (instructions/lifecycle.rs) *)
   Definition do_create (two : bool) (value off size salt : Z) (s : mstate) : sem_res :=
-    if e_readonly E then SemFail USR_READ_ONLY else
+    if e_readonly E then SemFail USR_READ_ONLY s else
     match mem_region (m_msize s) off size with
-    | None => SemFail ILLEGAL_MEM
+    | None => SemFail ILLEGAL_MEM s
     | Some (reg, sz) =>
         let init := region_bytes (m_mem s) reg in
         let s0 := set_mem (m_mem s) sz s in
@@ -303,21 +303,21 @@ Section Machine.
   Definition do_log (ntopics : nat) (args : list Z) (s : mstate) : sem_res :=
     match args with
     | off :: size :: topics =>
-        if negb (Nat.eqb (length topics) ntopics) then SemFail EC_MODEL else
-        if e_readonly E then SemFail USR_READ_ONLY else
+        if negb (Nat.eqb (length topics) ntopics) then SemFail EC_MODEL s else
+        if e_readonly E then SemFail USR_READ_ONLY s else
         match mem_region (m_msize s) off size with
-        | None => SemFail ILLEGAL_MEM
+        | None => SemFail ILLEGAL_MEM s
         | Some (reg, sz) =>
             SemNone (set_ext (m_retdata s) (m_balance s) (m_ext s)
                              (EvLog topics (region_bytes (m_mem s) reg) :: m_log s)
                              (set_mem (m_mem s) sz s))
         end
-    | _ => SemFail EC_MODEL
+    | _ => SemFail EC_MODEL s
     end.
 
   Definition do_exit (revert : bool) (off size : Z) (s : mstate) : sem_res :=
     match mem_region (m_msize s) off size with
-    | None => SemFail ILLEGAL_MEM
+    | None => SemFail ILLEGAL_MEM s
     | Some (reg, sz) =>
         let data := region_bytes (m_mem s) reg in
         SemExit (if revert then Revert data else Return data) (set_mem (m_mem s) sz s)
@@ -325,7 +325,7 @@ Section Machine.
 
   (* control::jump / jumpi *)
   Definition do_jump (dest : Z) (s : mstate) : sem_res :=
-    if valid_jumpdest code dest then SemJump (dest + 1) s else SemFail EVM_CONTRACT_BAD_JUMPDEST.
+    if valid_jumpdest code dest then SemJump (dest + 1) s else SemFail EVM_CONTRACT_BAD_JUMPDEST s.
 
   Definition store_set (m : gmap Z Z) (k v : Z) : gmap Z Z :=
     if v =? 0 then delete k m else <[ k := v ]> m.
@@ -356,48 +356,48 @@ Section Machine.
         match args with
         | [off; size] =>
             match mem_region (m_msize s) off size with
-            | None => SemFail ILLEGAL_MEM
+            | None => SemFail ILLEGAL_MEM s
             | Some (reg, sz) =>
                 SemPush (wrapW (e_keccak E (region_bytes (m_mem s) reg))) (set_mem (m_mem s) sz s)
             end
-        | _ => SemFail EC_MODEL
+        | _ => SemFail EC_MODEL s
         end
     (* context.rs / state.rs: values supplied by the environment *)
     | I_ADDRESS | I_ORIGIN | I_CALLER | I_CALLVALUE | I_GASPRICE | I_COINBASE | I_TIMESTAMP | I_NUMBER
     | I_PREVRANDAO | I_GASLIMIT | I_CHAINID | I_BASEFEE | I_GAS => nullary (e_ctx E i) args s
     | I_SELFBALANCE => nullary (m_balance s) args s
     | I_BALANCE | I_EXTCODESIZE | I_EXTCODEHASH =>
-        match args with [a] => SemPush (wrapW (e_keyed E i (a mod ADDR_MASK))) s | _ => SemFail EC_MODEL end
+        match args with [a] => SemPush (wrapW (e_keyed E i (a mod ADDR_MASK))) s | _ => SemFail EC_MODEL s end
     | I_BLOCKHASH =>
-        match args with [a] => SemPush (wrapW (e_keyed E i a)) s | _ => SemFail EC_MODEL end
+        match args with [a] => SemPush (wrapW (e_keyed E i a)) s | _ => SemFail EC_MODEL s end
     | I_EXTCODECOPY =>
         match args with
         | [a; dest; doff; size] =>
             match copy_to_memory s dest size doff (e_extcode E (a mod ADDR_MASK)) true with
-            | None => SemFail ILLEGAL_MEM | Some s' => SemNone s' end
-        | _ => SemFail EC_MODEL
+            | None => SemFail ILLEGAL_MEM s | Some s' => SemNone s' end
+        | _ => SemFail EC_MODEL s
         end
     (* call.rs: call data and code *)
     | I_CALLDATALOAD =>
         match args with
         | [idx] => SemPush (be_to_Z (map (fun k => byte_at (e_calldata E) (idx + k)) (zseq 0 32))) s
-        | _ => SemFail EC_MODEL
+        | _ => SemFail EC_MODEL s
         end
     | I_CALLDATASIZE => nullary (zlen (e_calldata E)) args s
     | I_CALLDATACOPY =>
         match args with
         | [dest; doff; size] =>
             match copy_to_memory s dest size doff (map (fun b => b mod 256) (e_calldata E)) true with
-            | None => SemFail ILLEGAL_MEM | Some s' => SemNone s' end
-        | _ => SemFail EC_MODEL
+            | None => SemFail ILLEGAL_MEM s | Some s' => SemNone s' end
+        | _ => SemFail EC_MODEL s
         end
     | I_CODESIZE => nullary codelen args s
     | I_CODECOPY =>
         match args with
         | [dest; doff; size] =>
             match copy_to_memory s dest size doff (map (fun b => b mod 256) code) true with
-            | None => SemFail ILLEGAL_MEM | Some s' => SemNone s' end
-        | _ => SemFail EC_MODEL
+            | None => SemFail ILLEGAL_MEM s | Some s' => SemNone s' end
+        | _ => SemFail EC_MODEL s
         end
     (* control.rs: return data *)
     | I_RETURNDATASIZE => nullary (zlen (m_retdata s)) args s
@@ -405,18 +405,18 @@ Section Machine.
         match args with
         | [dest; src; size] =>
             match mem_region (m_msize s) dest size with
-            | None => SemFail ILLEGAL_MEM
+            | None => SemFail ILLEGAL_MEM s
             | Some (reg, sz) =>
                 let rl := zlen (m_retdata s) in
-                if rl <? src then SemFail ILLEGAL_MEM else
+                if rl <? src then SemFail ILLEGAL_MEM s else
                 let n := match reg with RegNone => 0 | RegSome _ n => n end in
-                if rl <? src + n then SemFail ILLEGAL_MEM else
+                if rl <? src + n then SemFail ILLEGAL_MEM s else
                 match reg with
                 | RegNone => SemNone (set_mem (m_mem s) sz s)
                 | RegSome off n => SemNone (set_mem (mem_write (m_mem s) off (ztake n (zdrop src (m_retdata s)))) sz s)
                 end
             end
-        | _ => SemFail EC_MODEL
+        | _ => SemFail EC_MODEL s
         end
     (* instructions/memory.rs *)
     | I_MLOAD =>
@@ -424,27 +424,27 @@ Section Machine.
         | [idx] =>
             match mem_region (m_msize s) idx 32 with
             | Some (RegSome off n, sz) => SemPush (be_to_Z (mem_read (m_mem s) off 32)) (set_mem (m_mem s) sz s)
-            | _ => SemFail ILLEGAL_MEM
+            | _ => SemFail ILLEGAL_MEM s
             end
-        | _ => SemFail EC_MODEL
+        | _ => SemFail EC_MODEL s
         end
     | I_MSTORE =>
         match args with
         | [idx; v] =>
             match mem_region (m_msize s) idx 32 with
             | Some (RegSome off n, sz) => SemNone (set_mem (mem_write (m_mem s) off (Z_to_be 32 v)) sz s)
-            | _ => SemFail ILLEGAL_MEM
+            | _ => SemFail ILLEGAL_MEM s
             end
-        | _ => SemFail EC_MODEL
+        | _ => SemFail EC_MODEL s
         end
     | I_MSTORE8 =>
         match args with
         | [idx; v] =>
             match mem_region (m_msize s) idx 1 with
             | Some (RegSome off n, sz) => SemNone (set_mem (mem_write (m_mem s) off [v mod 256]) sz s)
-            | _ => SemFail ILLEGAL_MEM
+            | _ => SemFail ILLEGAL_MEM s
             end
-        | _ => SemFail EC_MODEL
+        | _ => SemFail EC_MODEL s
         end
     | I_MSIZE => nullary (m_msize s) args s
     | I_MCOPY =>
@@ -456,40 +456,40 @@ Section Machine.
             | Some (RegSome soff n, sz1) =>
                 match mem_region sz1 dest size with
                 | Some (RegSome doff _, sz2) => SemNone (set_mem (mem_move (m_mem s) doff soff n) sz2 s)
-                | _ => SemFail ILLEGAL_MEM
+                | _ => SemFail ILLEGAL_MEM s
                 end
-            | _ => SemFail ILLEGAL_MEM
+            | _ => SemFail ILLEGAL_MEM s
             end
-        | _ => SemFail EC_MODEL
+        | _ => SemFail EC_MODEL s
         end
     (* storage.rs *)
-    | I_SLOAD => match args with [k] => SemPush (store_get (m_storage s) k) s | _ => SemFail EC_MODEL end
-    | I_TLOAD => match args with [k] => SemPush (store_get (m_transient s) k) s | _ => SemFail EC_MODEL end
+    | I_SLOAD => match args with [k] => SemPush (store_get (m_storage s) k) s | _ => SemFail EC_MODEL s end
+    | I_TLOAD => match args with [k] => SemPush (store_get (m_transient s) k) s | _ => SemFail EC_MODEL s end
     | I_SSTORE =>
         match args with
-        | [k; v] => if e_readonly E then SemFail USR_READ_ONLY
+        | [k; v] => if e_readonly E then SemFail USR_READ_ONLY s
                     else SemNone (set_storage (store_set (m_storage s) k v) s)
-        | _ => SemFail EC_MODEL
+        | _ => SemFail EC_MODEL s
         end
     | I_TSTORE =>
         match args with
-        | [k; v] => if e_readonly E then SemFail USR_READ_ONLY
+        | [k; v] => if e_readonly E then SemFail USR_READ_ONLY s
                     else SemNone (set_transient (store_set (m_transient s) k v) s)
-        | _ => SemFail EC_MODEL
+        | _ => SemFail EC_MODEL s
         end
     (* control.rs *)
-    | I_JUMPDEST => match args with [] => SemNone s | _ => SemFail EC_MODEL end
-    | I_INVALID => match args with [] => SemFail EVM_CONTRACT_INVALID_INSTRUCTION | _ => SemFail EC_MODEL end
-    | I_STOP => match args with [] => SemExit (Return []) s | _ => SemFail EC_MODEL end
-    | I_RETURN => match args with [off; size] => do_exit false off size s | _ => SemFail EC_MODEL end
-    | I_REVERT => match args with [off; size] => do_exit true off size s | _ => SemFail EC_MODEL end
-    | I_JUMP => match args with [dest] => do_jump dest s | _ => SemFail EC_MODEL end
+    | I_JUMPDEST => match args with [] => SemNone s | _ => SemFail EC_MODEL s end
+    | I_INVALID => match args with [] => SemFail EVM_CONTRACT_INVALID_INSTRUCTION s | _ => SemFail EC_MODEL s end
+    | I_STOP => match args with [] => SemExit (Return []) s | _ => SemFail EC_MODEL s end
+    | I_RETURN => match args with [off; size] => do_exit false off size s | _ => SemFail EC_MODEL s end
+    | I_REVERT => match args with [off; size] => do_exit true off size s | _ => SemFail EC_MODEL s end
+    | I_JUMP => match args with [dest] => do_jump dest s | _ => SemFail EC_MODEL s end
     | I_JUMPI =>
         match args with
         | [dest; test] => if test =? 0 then SemJump (m_pc s + 1) s else do_jump dest s
-        | _ => SemFail EC_MODEL
+        | _ => SemFail EC_MODEL s
         end
-    | I_PC => match args with [] => SemPush (wrapW (m_pc s)) s | _ => SemFail EC_MODEL end
+    | I_PC => match args with [] => SemPush (wrapW (m_pc s)) s | _ => SemFail EC_MODEL s end
     (* log_event.rs *)
     | I_LOG0 => do_log 0 args s | I_LOG1 => do_log 1 args s | I_LOG2 => do_log 2 args s
     | I_LOG3 => do_log 3 args s | I_LOG4 => do_log 4 args s
@@ -497,33 +497,33 @@ Section Machine.
     | I_CALL =>
         match args with
         | [gas; dst; value; ioff; isz; ooff; osz] => do_call 0 dst value ioff isz ooff osz s
-        | _ => SemFail EC_MODEL
+        | _ => SemFail EC_MODEL s
         end
     | I_DELEGATECALL =>
         match args with
         | [gas; dst; ioff; isz; ooff; osz] => do_call 1 dst 0 ioff isz ooff osz s
-        | _ => SemFail EC_MODEL
+        | _ => SemFail EC_MODEL s
         end
     | I_STATICCALL =>
         match args with
         | [gas; dst; ioff; isz; ooff; osz] => do_call 2 dst 0 ioff isz ooff osz s
-        | _ => SemFail EC_MODEL
+        | _ => SemFail EC_MODEL s
         end
     (* lifecycle.rs *)
-    | I_CREATE => match args with [v; off; size] => do_create false v off size 0 s | _ => SemFail EC_MODEL end
-    | I_CREATE2 => match args with [v; off; size; salt] => do_create true v off size salt s | _ => SemFail EC_MODEL end
+    | I_CREATE => match args with [v; off; size] => do_create false v off size 0 s | _ => SemFail EC_MODEL s end
+    | I_CREATE2 => match args with [v; off; size; salt] => do_create true v off size salt s | _ => SemFail EC_MODEL s end
     | I_SELFDESTRUCT =>
         match args with
         | [b] =>
-            if e_readonly E then SemFail USR_READ_ONLY else
+            if e_readonly E then SemFail USR_READ_ONLY s else
             let '(r, rest) := next_ext s in
             if xr_ok r then
               SemExit (Return []) (set_ext (m_retdata s) 0 rest (EvSelfdestruct (b mod ADDR_MASK) :: m_log s) s)
-            else SemFail EVM_CONTRACT_SELFDESTRUCT_FAILED
-        | _ => SemFail EC_MODEL
+            else SemFail EVM_CONTRACT_SELFDESTRUCT_FAILED s
+        | _ => SemFail EC_MODEL s
         end
     (* handled by exec_row *)
-    | _ => SemFail EC_MODEL
+    | _ => SemFail EC_MODEL s
     end.
 
   (* ---- the stack discipline of the macro the instruction is defined with (stack.rs) ---- *)
@@ -594,7 +594,7 @@ Section Machine.
       | inl c => fail c s
       | inr (args, stk') =>
           match sem (op_instr r) args (set_stack stk' s) with
-          | SemFail c => fail c (set_stack stk' s)   (* the operands are already gone (pop_many) *)
+          | SemFail c s' => fail c s'   (* the operands are already gone (pop_many) *)
           | SemExit o s' => match op_pc r with PcEnd => SHalt o s' | _ => fail EC_MODEL s end
           | SemJump p s' => match op_pc r with PcJump => SNext (set_pc p s') | _ => fail EC_MODEL s end
           | SemNone s' =>
